@@ -168,6 +168,25 @@ def P3(ctx):
                     ctx.bad("P3", k, "the branch-capacity assertion fires even while panicking (double panic in Drop impls that branch)",
                             site_str(prog, k, b), detail="assert_path_len")
     ctx.floor("P3-capacity", m, 3, "push_load, branch_spurious, branch_thread")
+    # independent of the macro: any panic reachable between entry and the insertion of a branch must be skipped while panicking
+    for m_ in ("push_load", "branch_spurious", "branch_thread"):
+        k = "rt::path::Path::" + m_
+        fn = prog.fn(k)
+        if fn is None:
+            continue
+        body = fn.body
+        inst = prog.ident(k)
+        ins = [b for (b, t, c) in prog.sites(inst) if prog.callee_key(c) == "rt::object::Store::<T>::insert"]
+        dom = body.dominators()
+        for (pb, msg) in panic_sites(prog, k):
+            # panics that can fire before the insertion (capacity-style guards)
+            if any(pb not in body.reachable(i) for i in ins) and any(sb in dom[i] for i in ins for (e, pol, v, sb) in guard_atoms(body, pb)
+                                                                    if e[0] == "binop" and "capacity" in canon(e)):
+                if unreachable_if(body, pb, assume_calls({"std::thread::panicking": True})):
+                    ctx.ok("P3", k + ":capacity-guard", "capacity panic skipped while panicking", [site_str(prog, k, pb)])
+                else:
+                    ctx.bad("P3", k, "a capacity assertion before the branch insertion fires even while the thread is panicking: loom "
+                            "operations in destructors then double-panic and abort the process", site_str(prog, k, pb), detail="capacity-guard")
 
 
 def P4(ctx):
